@@ -154,16 +154,12 @@ func Cmp(ei, ej Object) int {
 	ti := ei.Type()
 	tj := ej.Type()
 	if areIntFloat(ti, tj) {
-		// We have float and integer, let's sort them together.
-		var v1, v2 float64
+		// We have float and integer, let's sort them together (exactly: going through
+		// float64(int) isn't transitive beyond 2^53).
 		if ti == INTEGER {
-			v1 = float64(ei.(Integer).Value)
-			v2 = ej.(Float).Value
-		} else {
-			v1 = ei.(Float).Value
-			v2 = float64(ej.(Integer).Value)
+			return cmpIntFloat(ei.(Integer).Value, ej.(Float).Value)
 		}
-		return cmp.Compare(v1, v2)
+		return -cmpIntFloat(ej.(Integer).Value, ei.(Float).Value)
 	}
 	if ti < tj {
 		return -1
@@ -240,6 +236,24 @@ func Cmp(ei, ej Object) int {
 		panic(fmt.Sprintf("Unexpected type in Cmp: %s", ti))
 	}
 	return 1
+}
+
+// cmpIntFloat compares an integer and a float exactly, same convention as cmp.Compare
+// (NaN is smaller than everything else).
+func cmpIntFloat(i int64, f float64) int {
+	switch {
+	case f != f:
+		return 1
+	case f >= 9223372036854775808.0:
+		return -1
+	case f < -9223372036854775808.0:
+		return 1
+	}
+	t := int64(f) // integral part, fits.
+	if c := cmp.Compare(i, t); c != 0 {
+		return c
+	}
+	return -cmp.Compare(f-float64(t), 0)
 }
 
 func CompareKeys(a, b keyValuePair) int {
